@@ -25,6 +25,48 @@ def sanitize_numbers(x):
     return x
 
 
+def needs_surfaces(x):
+    if isinstance(x, dict):
+        for k, v in x.items():
+            if k in ("min depth", "max depth") and isinstance(v, list):
+                return True
+            if needs_surfaces(v):
+                return True
+    elif isinstance(x, list):
+        return any(needs_surfaces(v) for v in x)
+    return False
+
+
+def fetch_surfaces(path):
+    """triangulation and kd-tree of every depth surface of a world, as built by the implementation"""
+    ans = common.run_probe(["world 0 %s 1" % path, "surfaces 0"])
+    if not ans[1].startswith("ok"):
+        return None
+    t = ans[1].split()
+    out = {}
+    i = 1
+    while i < len(t):
+        assert t[i] == "S"
+        key = t[i + 1]
+        const = t[i + 2] == "1"
+        mn, mx = common.unhex(t[i + 3]), common.unhex(t[i + 4])
+        nt = int(t[i + 5])
+        i += 6
+        tris = []
+        for _ in range(nt):
+            v = [common.unhex(x) for x in t[i:i + 9]]
+            tris.append([v[0:3], v[3:6], v[6:9]])
+            i += 9
+        nn = int(t[i])
+        i += 1
+        nodes = []
+        for _ in range(nn):
+            nodes.append((int(t[i]), common.unhex(t[i + 1]), common.unhex(t[i + 2])))
+            i += 3
+        out[key] = {"const": const, "min": mn, "max": mx, "tris": tris, "nodes": nodes}
+    return out
+
+
 class CaseSet:
     def __init__(self, tag):
         self.dir = os.path.join(common.WORK, "cases", "%s_%d" % (tag, os.getpid()))
@@ -46,6 +88,10 @@ class CaseSet:
         path = os.path.join(self.dir, "w%d.wb" % slot)
         with open(path, "w") as f:
             json.dump(wj, f)
+        if surfaces is None and model and needs_surfaces(wj):
+            surfaces = fetch_surfaces(path)
+            if surfaces is None:
+                model = False
         el = Elab(wj, surfaces)
         term = el.world() if model else None
         ok = model and el.unsupported is None
